@@ -19,7 +19,13 @@ Scale == /\ Is("Scale") /\ l' = l + 1
 Affine == /\ Is("Affine") /\ l' = l + 1 /\ Ev.predRaw = Ev.predUp /\ Ev.exactSame
 \* real-valued data (1..300 rows x 1..20 columns, magnitudes 1e-6..1e6, arbitrary missing patterns, multi-output models): the driver's own
 \* long-double statistics and tolerance comparisons (environment predicates)
+\* tableOK: the continuous values are those of the driver's table at the listed samples (subsets, permutations, repetitions); targetStatsOK /
+\* targetScalingOK: statistics of the targets against the driver's own, inversion and advertised range / mean / deviation of the scaled targets,
+\* categorical targets untouched; featureStatsOK: the per-feature statistics are those of the feature's columns; cacheOK: a budget below the
+\* need caches nothing
 Float == /\ Is("Float") /\ l' = l + 1 /\ Ev.statsOK /\ Ev.roundtripOK /\ Ev.advertisedOK /\ Ev.categoricalOK /\ Ev.missingOK /\ Ev.affineOK /\ Ev.iteratorOK
+         /\ Ev.tableOK /\ Ev.targetStatsOK /\ Ev.targetScalingOK /\ Ev.featureStatsOK /\ Ev.cacheOK
+         /\ Ev.listed >= 1 /\ Ev.targetKind \in 0..2
 Next == Scale \/ Affine \/ Float
 Init == l = 1
 Spec == Init /\ [][Next]_l
